@@ -218,16 +218,27 @@ fn same_verdict(imp: &str, model: &str) -> bool {
 }
 
 // ------------------------------------------------------------------------------------------------ generators
+/// a canonical scalar whose repr has `lead` zero bytes at the front and `trail` zero bytes at the end.  The crate reads the
+/// repr BIG-endian on both curves, so `lead` zero bytes make the integer encoding `lead` bytes short (for edwards25519 these
+/// are the LOW-order bytes of the scalar; `trail` are its high-order bytes).
+fn shaped_scalar<G: Cv>(rng: &mut dyn RngCore, lead: usize, trail: usize) -> G::Scalar {
+    loop {
+        let mut b = [0u8; 32]; rng.fill_bytes(&mut b);
+        if !G::BE { b[31] &= 0x0f; }
+        for x in b[..lead].iter_mut() { *x = 0; }
+        for x in b[32 - trail..].iter_mut() { *x = 0; }
+        if let Some(s) = sc_from_repr::<G>(&b) { return s; }
+    }
+}
+/// make `Scalar::random` draw number `slot` of an honest run return `s` (k256: 32 big-endian bytes below q are taken as they
+/// are; curve25519-dalek: 64 little-endian bytes reduced mod l — the value itself with a zero upper half)
+fn write_nonce<G: Cv>(tape: &mut [u8], slot: usize, s: &G::Scalar) {
+    let o = 128 + slot * G::DRAW;
+    for b in tape[o..o + G::DRAW].iter_mut() { *b = 0; }
+    tape[o..o + 32].copy_from_slice(&sc_repr::<G>(s));
+}
 fn scalar_classes<G: Cv>(rng: &mut impl RngCore) -> Vec<(&'static str, G::Scalar)> {
-    let shaped = |rng: &mut dyn RngCore, lead: usize, trail: usize| -> G::Scalar {
-        loop {
-            let mut b = [0u8; 32]; rng.fill_bytes(&mut b);
-            if !G::BE { b[31] &= 0x0f; }
-            for x in b[..lead].iter_mut() { *x = 0; }
-            for x in b[32 - trail..].iter_mut() { *x = 0; }
-            if let Some(s) = sc_from_repr::<G>(&b) { return s; }
-        }
-    };
+    let shaped = |rng: &mut dyn RngCore, lead: usize, trail: usize| -> G::Scalar { shaped_scalar::<G>(rng, lead, trail) };
     vec![
         ("x=0", G::Scalar::ZERO), ("x=1", G::Scalar::ONE), ("x=order-1", -G::Scalar::ONE),
         ("x:repr-leading-zero-byte", shaped(rng, 1, 0)), ("x:repr-3-leading-zero-bytes", shaped(rng, 3, 0)),
@@ -272,7 +283,9 @@ fn honest<G: Cv>(env: &Env, drv: &mut Driver, rep: &mut Report, stream: &str, xn
     let v = impl_verify(&p, &q, &key.pk, label);
     if v != "ok" { rep.pred_fail(fail("venc:honest-rejected", "an honest proof does not verify against Q = x*G", vec![req.clone()], &v, "ok")); }
     let (d, _) = impl_decrypt(&p, &q, &key.sk, label);
-    if d != xh { rep.pred_fail(fail("venc:honest-decrypt", "decryption of an honest proof does not return x", vec![req.clone()], &d, &xh)); }
+    // honest runs whose nonces were forced to have short integer encodings report under the key of that defect class
+    let dkey = if xname.contains("nonces-short") { "venc:short-encoding-skipped" } else { "venc:honest-decrypt" };
+    if d != xh { rep.pred_fail(fail(dkey, "decryption of an honest proof does not return x", vec![req.clone()], &d, &xh)); }
     // serialise, parse back
     let (rv, rd) = (req_verify(&bytes, &q, key, label), req_decrypt(&bytes, &q, key, label));
     match impl_parse::<G>(&bytes) {
@@ -283,7 +296,7 @@ fn honest<G: Cv>(env: &Env, drv: &mut Driver, rep: &mut Report, stream: &str, xn
             let v2 = impl_verify(&p2, &q, &key.pk, label);
             if v2 != "ok" { rep.pred_fail(fail("venc:roundtrip-verify", "the reparsed proof does not verify", vec![req.clone(), rv.clone()], &v2, "ok")); }
             let (d2, _) = impl_decrypt(&p2, &q, &key.sk, label);
-            if d2 != xh { rep.pred_fail(fail("venc:roundtrip-decrypt", "the reparsed proof does not decrypt to x", vec![req.clone(), rd.clone()], &d2, &xh)); }
+            if d2 != xh { rep.pred_fail(fail(if dkey == "venc:honest-decrypt" { "venc:roundtrip-decrypt" } else { dkey }, "the reparsed proof does not decrypt to x", vec![req.clone(), rd.clone()], &d2, &xh)); }
             // model verdicts on the same bytes
             let mv = ask(drv, env, &rv);
             if mv != v2 { rep.diverge(fail("venc:verify-model", "Lean model VerEnc.verify and verify disagree (honest proof)", vec![rv.clone()], &v2, &mv)); }
@@ -394,6 +407,25 @@ fn c09_curve<G: Cv>(o: &Opts, env: &Env, drv: &mut Driver, rep: &mut Report, rng
             _ => {}
         }
         honest::<G>(env, drv, rep, "honest", xname, x, &label, param, key, tape);
+    }
+    // EVERY nonce (and x) with zero bytes at an end of its repr: if all slots are skipped decryption fails, so these runs
+    // see a decoder that mishandles short integer encodings even though one good slot normally hides it
+    let shapes: &[(&str, usize, usize, bool)] = if thorough {
+        &[("r:lead1", 1, 0, false), ("r:lead2", 2, 0, false), ("r:lead4", 4, 0, false), ("r:lead16", 16, 0, false), ("r:lead31", 31, 0, false), ("r:lead32(zero)", 32, 0, false),
+          ("r:trail2", 0, 2, false), ("r:trail16", 0, 16, false), ("r:lead2+trail2", 2, 2, false),
+          ("x+r:lead1", 1, 0, true), ("x+r:lead2", 2, 0, true), ("x+r:lead16", 16, 0, true), ("x+r:lead32(zero)", 32, 0, true), ("x+r:trail3", 0, 3, true), ("x+r:lead3+trail3", 3, 3, true)]
+    } else { &[("r:lead2", 2, 0, false), ("r:trail2", 0, 2, false), ("r:lead2+trail2", 2, 2, false), ("x+r:lead3", 3, 0, true), ("x+r:lead16+trail2", 16, 2, true)] };
+    for (si, (name, lead, trail, on_sum)) in shapes.iter().enumerate() {
+        // x itself with 2+ zero bytes at the front / the end / both ends of its repr, or random
+        let x = match si % 4 { 0 => shaped_scalar::<G>(rng, 2, 0), 1 => shaped_scalar::<G>(rng, 0, 2), 2 => shaped_scalar::<G>(rng, 3, 3), _ => shaped_scalar::<G>(rng, 0, 0) };
+        let mut tape = random_tape::<G>(rng, 128);
+        for slot in 0..128 {
+            let t = shaped_scalar::<G>(rng, *lead, *trail);
+            write_nonce::<G>(&mut tape, slot, &if *on_sum { t - x } else { t });
+        }
+        let class: &'static str = Box::leak(format!("nonces-short:{name}").into_boxed_str());
+        let mut label = vec![0u8; LABEL_LENS[si % LABEL_LENS.len()]]; rng.fill_bytes(&mut label);
+        honest::<G>(env, drv, rep, "honest-short-nonces", class, &x, &label, None, &env.keys[if thorough { si % env.keys.len() } else { 0 }], tape);
     }
     // out-of-range security parameters are refused
     for (k, p) in [0usize, 1, 127, 257, 1000, 65535, 65536, 1 << 32].iter().enumerate() {
@@ -559,14 +591,17 @@ fn c10_curve<G: Cv>(o: &Opts, env: &Env, drv: &mut Driver, rep: &mut Report, rng
     let mut strategies: Vec<(String, usize)> = vec![];
     for s in ["plain", "garbage:raw:0:64", "garbage:raw:0,1,2:400", "garbage:raw:5:64", "garbage:raw:1,64,127:400", "garbage:wrongvalue:0,7:200", "garbage:nonscalar:0,1:200",
               "garbage:raw:0,1,2,3,4,5:4000", "garbagenog:raw:0,1,2,3,4,5,6,7", "garbagenog:wrongvalue:0,1,2,3,4,5,6,7", "wrongcommit:0", "wrongcommit:127", "wrongcommit:3,64",
-              "wrongside:0", "wrongside:100", "wrongside:5,6,7", "shortr", "shortxr"] { strategies.push((s.to_string(), 128)); }
-    strategies.push(("garbage:raw:0,200:200".into(), 256)); strategies.push(("shortr".into(), 200)); strategies.push(("plain".into(), 257)); strategies.push(("wrongside:256".into(), 257));
+              "wrongside:0", "wrongside:100", "wrongside:5,6,7", "shortr:1", "shortxr:1", "shortr:2", "shortxr:2"] { strategies.push((s.to_string(), 128)); }
+    // one larger number of leading zero bytes per curve
+    strategies.push((if G::BE { "shortr:16" } else { "shortxr:31" }.to_string(), 128));
+    strategies.push(("garbage:raw:0,200:200".into(), 256)); strategies.push((if G::BE { "shortxr:4" } else { "shortr:4" }.into(), 200)); strategies.push(("plain".into(), 257)); strategies.push(("wrongside:256".into(), 257));
     // exactly ONE conjunct of the per-slot acceptance condition violated (commitment relation of the selected side /
     // re-encryption equals the ciphertext of the selected side), everything else honest, challenge recomputed, no grinding
     for s in ["swap:all", "swap:one:0", "cross:0:1", "cross:5:100", "commit-other-side:0", "commit-other-side:3,64", "open-plus-order:0", "open-plus-order:127"] { strategies.push((s.to_string(), 128)); }
     // adaptive forgers that know only Q: each assumes the verifier's challenge omits one component class
     for d in ["g_r", "enc_x_r", "enc_r", "label", "Q"] { strategies.push((format!("adaptive:{d}"), 128)); }
     if thorough {
+        for k in [4usize, 16, 31, 32] { strategies.push((format!("shortr:{k}"), 128)); strategies.push((format!("shortxr:{k}"), 128)); }
         strategies.push(("adaptive:g_r".into(), 256));
         strategies.push(("garbage:raw:0,1,2,3,4,5,6,7,8,9:60000".into(), 128));
         strategies.push(("garbage:wrongvalue:0,1,2,3,4,5,6,7:20000".into(), 128));
@@ -584,7 +619,7 @@ fn c10_curve<G: Cv>(o: &Opts, env: &Env, drv: &mut Driver, rep: &mut Report, rng
             let mut label = vec![0u8; [3usize, 0, 40][(si + rep_i) % 3]]; rng.fill_bytes(&mut label);
             let kx = if thorough { &env.keys[(si + rep_i) % env.keys.len()] } else { key };
             let q = G::generator() * *x;
-            let class = { let f: Vec<&str> = st.split(':').collect(); let base = if f[0].starts_with("garbage") || f[0] == "adaptive" || (f[0] == "swap" && f[1] == "all") { format!("{}:{}", f[0], f[1]) } else { f[0].to_string() };
+            let class = { let f: Vec<&str> = st.split(':').collect(); let base = if f[0].starts_with("garbage") || f[0] == "adaptive" || (f[0] == "swap" && f[1] == "all") || (f[0].starts_with("short") && f.len() > 1) { format!("{}:{}", f[0], f[1]) } else { f[0].to_string() };
                           format!("{base}{}{}", if *nslots > 256 { ":slots>256" } else { "" }, if bool::from(x.is_zero()) { ":x=0" } else { "" }) };
             match forge::<G>(env, drv, x, kx, &label, *nslots, st, rng) {
                 Some(f) if f.adv_req.starts_with("skip:") => { if rep_i == 0 && G::BE { rep.notes.push(format!("{st}: {}", &f.adv_req[5..])); } rep.hist("adaptive:skipped-no-attack"); }
@@ -615,7 +650,7 @@ fn replay_curve<G: Cv>(env: &Env, drv: &mut Driver, rep: &mut Report, lines: &[S
         let t: Vec<&str> = l.split(' ').collect();
         if t.len() < 3 || t[0] != "venc" || t[2] != G::TAG { continue; }
         match (t[1], t.len()) {
-            ("adv", 10) => { let f: Vec<&str> = t[8].split(':').collect(); class = if (f[0].starts_with("garbage") || f[0] == "adaptive") && f.len() > 1 { format!("{}:{}", f[0], f[1]) } else { f[0].to_string() };
+            ("adv", 10) => { let f: Vec<&str> = t[8].split(':').collect(); class = if (f[0].starts_with("garbage") || f[0] == "adaptive" || f[0].starts_with("short")) && f.len() > 1 { format!("{}:{}", f[0], f[1]) } else { f[0].to_string() };
                              let a = ask(drv, env, l); rep.notes.push(format!("replayed adv: model produced {} chars", a.len())); }
             ("verify", 8) | ("decrypt", 8) => {
                 let (bytes, label) = (unhexw(t[3]), unhexw(t[7]));
